@@ -1522,3 +1522,144 @@ func initMentions(is *ast.IfStmt, name string) bool {
 	}
 	return strings.Contains(types.ExprString(as.Rhs[0]), name)
 }
+
+// E6ColorModelCompare: components of premultiplied and non-premultiplied colours are never compared.
+func E6ColorModelCompare(c *core.Ctx, r *core.Report) {
+	r.Rule("E6.color-model-compare", "canvas keeps colours premultiplied (color.RGBA); the writers convert to straight alpha (color.NRGBA) before they emit components. The two types hold different numbers for every alpha below 255, so a component (R, G, B) of a color.NRGBA value is never compared with a component of a color.RGBA value — type-level, over the root package and the pdf, ps and svg writers. The PostScript writer's `only emit when changed` test compared the converted new colour with the stored premultiplied one: after RGBA{128,0,0,128} (emitted as 1 0 0) the opaque RGBA{128,0,0,255} emitted nothing and was painted bright red")
+	n := 0
+	for _, rel := range []string{"", "renderers/pdf", "renderers/ps", "renderers/svg"} {
+		p := c.MustPkg(rel)
+		info := p.TypesInfo
+		pk := "canvas"
+		if rel != "" {
+			pk = rel
+		}
+		model := func(e ast.Expr) string {
+			se, ok := core.Unparen(e).(*ast.SelectorExpr)
+			if !ok || (se.Sel.Name != "R" && se.Sel.Name != "G" && se.Sel.Name != "B") {
+				return ""
+			}
+			t := info.TypeOf(se.X)
+			if t == nil {
+				return ""
+			}
+			if pt, ok := t.(*types.Pointer); ok {
+				t = pt.Elem()
+			}
+			switch t.String() {
+			case "image/color.RGBA":
+				return "RGBA"
+			case "image/color.NRGBA":
+				return "NRGBA"
+			}
+			return ""
+		}
+		for _, fd := range core.AllFuncDecls(p) {
+			if strings.HasSuffix(c.Fset.Position(fd.Pos()).Filename, "_test.go") {
+				continue
+			}
+			ord := 0
+			ast.Inspect(fd.Body, func(m ast.Node) bool {
+				be, ok := m.(*ast.BinaryExpr)
+				if !ok {
+					return true
+				}
+				switch be.Op {
+				case token.EQL, token.NEQ, token.LSS, token.LEQ, token.GTR, token.GEQ:
+				default:
+					return true
+				}
+				a, b := model(be.X), model(be.Y)
+				if a == "" || b == "" {
+					return true
+				}
+				n++
+				ord++
+				key := fmt.Sprintf("%s.%s|colour components compared #%d", pk, core.FuncName(fd), ord)
+				if a == b {
+					r.OK("E6.color-model-compare", key, c.Pos(be.Pos()), a)
+				} else {
+					r.Fail("E6.color-model-compare", key, c.Pos(be.Pos()), fmt.Sprintf("`%s` compares a component of a %s colour with a component of a %s colour: equal numbers mean different colours whenever the alpha is below 255 (and different numbers may mean the same colour)", types.ExprString(be), a, b))
+				}
+				return true
+			})
+		}
+	}
+	r.Count("E6.colour-component-comparisons", n)
+	r.Floor("E6.colour-component-comparisons", 3)
+}
+
+// E6OutlineNonzero: the explicit stroke outline of the vector writers is filled non-zero.
+func E6OutlineNonzero(c *core.Ctx, r *core.Report) {
+	r.Rule("E6.outline-nonzero", "sibling agreement with the rasterizer (E6.winding-mode): when SVG, PDF or PostScript cannot express a stroke, RenderPath strokes the path itself and emits the outline as a filled path. That outline overlaps itself wherever the stroke crosses itself or another sub-path's stroke, and the rasterizer always scans it non-zero; so in the block that follows the Stroke(…) call nothing is selected by the style's FillRule and no even-odd operator or attribute (`f*`, `eofill`, `evenodd`) is written. With the path's EvenOdd rule applied to the outline, the crossing of two strokes is a hole")
+	n := 0
+	for _, rel := range []string{"renderers/svg", "renderers/pdf", "renderers/ps"} {
+		p := c.MustPkg(rel)
+		info := p.TypesInfo
+		var fd *ast.FuncDecl
+		for _, f := range core.AllFuncDecls(p) {
+			if f.Name.Name == "RenderPath" && f.Recv != nil {
+				fd = f
+			}
+		}
+		if fd == nil {
+			panic(core.Infra(rel + ": RenderPath not found"))
+		}
+		// innermost blocks containing a statement with a Path.Stroke call
+		var visit func(b *ast.BlockStmt)
+		visit = func(b *ast.BlockStmt) {
+			for i, st := range b.List {
+				hasStroke := false
+				nested := false
+				ast.Inspect(st, func(m ast.Node) bool {
+					if bb, ok := m.(*ast.BlockStmt); ok && bb != b {
+						nested = true
+						visit(bb)
+						return false
+					}
+					if call, ok := m.(*ast.CallExpr); ok {
+						if f := core.CalleeOf(info, call); f != nil && core.QualifiedCallee(f) == core.Module+".Path.Stroke" {
+							hasStroke = true
+						}
+					}
+					return true
+				})
+				_ = nested
+				if !hasStroke {
+					continue
+				}
+				n++
+				key := rel + "." + core.FuncName(fd) + "|explicit stroke outline filled non-zero"
+				bad := ""
+				var badPos token.Pos
+				for _, later := range b.List[i+1:] {
+					ast.Inspect(later, func(m ast.Node) bool {
+						switch x := m.(type) {
+						case *ast.SelectorExpr:
+							if x.Sel.Name == "FillRule" && bad == "" {
+								bad, badPos = "the outline's fill mode is selected by `"+types.ExprString(x)+"`", x.Pos()
+							}
+						case *ast.BasicLit:
+							if x.Kind == token.STRING && bad == "" {
+								for _, w := range []string{"f*", "eofill", "evenodd", "B*", "b*"} {
+									if strings.Contains(x.Value, w) {
+										bad, badPos = "the outline is written with the even-odd form "+x.Value, x.Pos()
+									}
+								}
+							}
+						}
+						return true
+					})
+				}
+				if bad == "" {
+					r.OK("E6.outline-nonzero", key, c.Pos(st.Pos()), "")
+				} else {
+					r.Fail("E6.outline-nonzero", key, c.Pos(badPos), bad+": the rasterizer fills stroke outlines non-zero, so where two strokes cross this back-end leaves a hole")
+				}
+			}
+		}
+		visit(fd.Body)
+	}
+	r.Count("E6.explicit-outlines", n)
+	r.Floor("E6.explicit-outlines", 3)
+}
